@@ -4,9 +4,10 @@ use crate::runner::Prop;
 pub mod c01;
 pub mod c02;
 pub mod c03;
+pub mod c30;
 
 pub fn all() -> Vec<Prop> {
-    vec![c01::prop(), c02::prop(), c03::prop()]
+    vec![c01::prop(), c02::prop(), c03::prop(), c30::prop()]
 }
 
 /// Auxiliary child entry points used by custom stages (`verif aux --prop ID ...`).
